@@ -41,6 +41,7 @@ type Opts struct {
 	NoDocSep  bool   `json:"no_doc_sep,omitempty"`
 	EvalAll   bool   `json:"eval_all,omitempty"`
 	NullIn    bool   `json:"null_in,omitempty"`
+	NulSep    bool   `json:"nul_sep,omitempty"` // -0 / --nul-output
 	// Tweak sets format preferences (the --csv-*, --xml-*, --lua-*, --properties-* flags) after the defaults are in place.
 	Tweak func() `json:"-"`
 }
@@ -213,6 +214,9 @@ func runRaw(expr, input string, o Opts) Outcome {
 	}
 	out := new(bytes.Buffer)
 	printer := yqlib.NewPrinter(enc, yqlib.NewSinglePrinterWriter(out))
+	if o.NulSep {
+		printer.SetNulSepOutput(true)
+	}
 	if o.NullIn {
 		err = yqlib.NewStreamEvaluator().EvaluateNew(expr, printer)
 		return mk(out, err)
